@@ -66,6 +66,27 @@ CHECKS = {
             "same program grammar, bounds and machine as C01; the machine's clobber rule is independent of the "
             "compiler's has_accfg_effects.",
             "bounded symbolic execution + z3 validity of the real analysis result at every program point", "3/C07"),
+    "C06": (TV,
+            "Translation validation of the real accfg-config-overlap (pipelines trace->overlap and trace->dedup->overlap) "
+            "on generated accfg programs incl. loops with extra loop-carried values, setup values computed by chains of "
+            "pure ops and shared subexpressions: input and output IR run on the abstract CSR machine on shared symbolic "
+            "paths (lb/ub/step, arguments, branch conditions symbolic; K-bounded unrolling); z3 proves equal "
+            "launch/await sequences and equal observed registers per launch; any SSA value read before its definition "
+            "in the output is a violation; module.verify() must pass.",
+            "same grammar/machine/assumptions as C01; K=3 quick / 4 thorough.",
+            "bounded symbolic execution of before/after IR + z3 equivalence queries", "3/C06"),
+    "C04": (TV,
+            "(a) Translation validation of convert-accfg-to-csr after trace/dedup/overlap: accfg-level IR on an abstract "
+            "machine vs lowered IR on a concrete CSR machine (inline-asm csrw/csrr and RoCC .insn interpreted) on "
+            "shared symbolic paths; z3 proves the CSR event sequence is the prescribed expansion (one write per field "
+            "at its declared address with its value, launch writes, the barrier style's await pattern, calls in "
+            "order), RoCC instructions carry the values in effect for rs1/rs2, and no accfg op / state value "
+            "survives. (b) Address maps of the real generate_acc_op for enumerated configurations proved injective "
+            "(incl. barrier and reserved status registers) and aligned with field tuples; xDMA multicast size symbolic.",
+            "test accelerators are thin subclasses of the real lowering base classes; polling bounded to 3 forking "
+            "status reads per path; streamer configurations sampled by VERIF_SEED; one known finding (RoCC default-0 "
+            "partner when state unknown) listed in known_findings.json.",
+            "bounded symbolic execution of before/after IR on abstract/concrete CSR machines + z3; symbolic address-map injectivity", "3/C04"),
 }
 
 NOT_YET = "check not built yet (work in progress in this round); no claim is made"
